@@ -16,6 +16,7 @@ mod oracle;
 mod rng;
 mod seq;
 mod sut;
+mod unit;
 
 use std::collections::{BTreeMap, BTreeSet};
 use std::sync::OnceLock;
@@ -219,6 +220,9 @@ fn main() {
     let _ = REPLAY_DIR.set(args.replay_dir.clone());
     let rep = match args.cmd.as_str() {
         "seq" => seq::run(&args),
+        "row" => unit::run_row(&args),
+        "sort" => unit::run_sort(&args),
+        "lower" => unit::run_lower(&args),
         "replay" => {
             let text = std::fs::read_to_string(args.file.as_ref().expect("--file")).expect("read replay");
             let j = J::parse(&text).expect("parse replay");
